@@ -8,11 +8,15 @@ package snowflake_client
 import (
 	"errors"
 	"fmt"
+	"io"
+	"net/http"
+	"net/http/httptest"
 	"os"
 	"runtime"
 	"strconv"
 	"strings"
 	"sync"
+	"sync/atomic"
 	"testing"
 	"time"
 
@@ -46,6 +50,11 @@ func c15Dispatch(args []string) string {
 			return "!badcase"
 		}
 		return c15RunConnect(args[1], args[2])
+	case "batch":
+		if len(args) != 2 {
+			return "!badcase"
+		}
+		return c15RunCloseBatch(args[1])
 	}
 	return "!badcase"
 }
@@ -59,6 +68,7 @@ type c15Tongue struct {
 	mu      sync.Mutex
 	peers   []*WebRTCPeer
 	calls   int
+	flying  int // Catch calls that have not returned (rendezvous attempts in flight)
 	gated   bool
 	nextOK  bool
 	entered chan struct{}
@@ -71,19 +81,34 @@ func (t *c15Tongue) Catch() (*WebRTCPeer, error) {
 	t.mu.Lock()
 	t.calls++
 	gated, ok := t.gated, t.nextOK
+	t.flying++
 	t.mu.Unlock()
 	t.entered <- struct{}{}
 	if gated {
 		ok = <-t.gate
 	}
+	t.mu.Lock()
+	defer t.mu.Unlock()
+	t.flying--
 	if !ok {
 		return nil, c15ErrCatch
 	}
 	p := &WebRTCPeer{closed: make(chan struct{})}
-	t.mu.Lock()
 	t.peers = append(t.peers, p)
-	t.mu.Unlock()
 	return p, nil
+}
+
+// unfinished reports what an End call that has just returned must not find: rendezvous
+// attempts still in flight, peers still open.
+func (t *c15Tongue) unfinished() (flying, open int) {
+	t.mu.Lock()
+	defer t.mu.Unlock()
+	for _, q := range t.peers {
+		if !q.Closed() {
+			open++
+		}
+	}
+	return t.flying, open
 }
 
 func (t *c15Tongue) idOf(p *WebRTCPeer) string {
@@ -332,6 +357,10 @@ func c15RunPeers(maxS, waitS, script string) string {
 			sc.endBeg = true
 			sc.ends = append(sc.ends, c15Go(func() string {
 				p.End()
+				// the moment End returns: no attempt in flight, nothing held open
+				if f, o := t.unfinished(); f != 0 || o != 0 {
+					return "ret-early"
+				}
 				return "ret"
 			}))
 			sc.settle()
@@ -612,4 +641,378 @@ func c15RunConnect(iceKind, rvKind string) string {
 		out += " leak=0"
 	}
 	return out
+}
+
+// ---------------------------------------------------------------- closing a connection (exported API)
+//
+// closeconn batch <scenario,scenario,...>     scenario = <max>.<broker>.<pre>.<closes>
+// Every scenario runs NewSnowflakeClient -> Transport.Dial -> SnowflakeConn against its own scripted
+// broker (httptest) which counts the polls of /client; the scenarios of a batch run concurrently
+// (each has to watch the broker for two ReconnectTimeouts after Close).
+//   broker: fail      every poll is answered "no proxies"
+//           good      the first poll is answered by an in-process pion peer (the client then holds a
+//                     live peer), later polls fail
+//           hold      the first poll is held by the broker until 1.5 s after Close was called (a
+//                     rendezvous attempt in flight while the connection is closed), then fails
+//           holdgood  same, but the held poll is then answered by a pion peer (a peer is being
+//                     collected while the connection is closed)
+//   pre:    none | sess (the smux session has died before the application calls Close)
+//                | pconn (the packet conn was closed first) | stream (the stream was closed first)
+//   closes: c (Close once) | cc (twice, one after the other) | c2 (two overlapping calls)
+// Result per scenario: ret=<Close calls returned within the bound>/<calls>;inflight=<polls in flight when a
+// Close returned>;melt=<collection ended>;open=<peers still open>;after=<polls after the last Close
+// returned>;late=<of those, later than 5 s after it>
+
+const (
+	c15CloseBound = 15 * time.Second
+	c15Straggle   = 5 * time.Second
+)
+
+type c15Remote struct {
+	pc     *webrtc.PeerConnection
+	opened int32
+	closed int32
+}
+
+func (r *c15Remote) open() bool {
+	return atomic.LoadInt32(&r.opened) > 0 && atomic.LoadInt32(&r.closed) == 0
+}
+
+type c15Broker struct {
+	kind     string
+	srv      *httptest.Server
+	mu       sync.Mutex
+	times    []time.Time // arrival of every poll
+	inflight int
+	remotes  []*c15Remote
+	release  chan struct{}
+	relOnce  sync.Once
+}
+
+func c15NewBroker(kind string) *c15Broker {
+	b := &c15Broker{kind: kind, release: make(chan struct{})}
+	mux := http.NewServeMux()
+	mux.HandleFunc("/client", b.poll)
+	b.srv = httptest.NewServer(mux)
+	return b
+}
+
+func (b *c15Broker) letGo() { b.relOnce.Do(func() { close(b.release) }) }
+
+func (b *c15Broker) shutdown() {
+	b.letGo()
+	b.mu.Lock()
+	rs := append([]*c15Remote(nil), b.remotes...)
+	b.mu.Unlock()
+	for _, r := range rs {
+		r.pc.Close()
+	}
+	b.srv.CloseClientConnections()
+	b.srv.Close()
+}
+
+func (b *c15Broker) polls() int {
+	b.mu.Lock()
+	defer b.mu.Unlock()
+	return len(b.times)
+}
+
+func (b *c15Broker) flying() int {
+	b.mu.Lock()
+	defer b.mu.Unlock()
+	return b.inflight
+}
+
+func (b *c15Broker) pollsAfter(t time.Time) (n int) {
+	b.mu.Lock()
+	defer b.mu.Unlock()
+	for _, x := range b.times {
+		if x.After(t) {
+			n++
+		}
+	}
+	return n
+}
+
+func (b *c15Broker) remoteOpen() (n int) {
+	b.mu.Lock()
+	defer b.mu.Unlock()
+	for _, r := range b.remotes {
+		if r.open() {
+			n++
+		}
+	}
+	return n
+}
+
+func (b *c15Broker) remoteOpened() (n int) {
+	b.mu.Lock()
+	defer b.mu.Unlock()
+	for _, r := range b.remotes {
+		if atomic.LoadInt32(&r.opened) > 0 {
+			n++
+		}
+	}
+	return n
+}
+
+func (b *c15Broker) poll(w http.ResponseWriter, req *http.Request) {
+	body, _ := io.ReadAll(io.LimitReader(req.Body, 1<<20))
+	b.mu.Lock()
+	b.times = append(b.times, time.Now())
+	first := len(b.times) == 1
+	b.inflight++
+	b.mu.Unlock()
+	var resp []byte
+	var err error
+	if first && (b.kind == "hold" || b.kind == "holdgood") {
+		select {
+		case <-b.release:
+		case <-time.After(60 * time.Second):
+		}
+	}
+	if first && (b.kind == "good" || b.kind == "holdgood") {
+		resp, err = b.answer(body)
+	} else {
+		resp, err = (&messages.ClientPollResponse{Error: "no snowflake proxies currently available"}).EncodePollResponse()
+	}
+	// the attempt is over for the broker before the client can see the answer
+	b.mu.Lock()
+	b.inflight--
+	b.mu.Unlock()
+	if err != nil {
+		w.WriteHeader(http.StatusServiceUnavailable)
+		return
+	}
+	w.Write(resp)
+}
+
+// answer plays the proxy: a pion peer that accepts the offer and watches the data channel.
+func (b *c15Broker) answer(enc []byte) ([]byte, error) {
+	req, err := messages.DecodeClientPollRequest(enc)
+	if err != nil {
+		return nil, err
+	}
+	offer, err := util.DeserializeSessionDescription(req.Offer)
+	if err != nil {
+		return nil, err
+	}
+	pc, err := webrtc.NewPeerConnection(webrtc.Configuration{})
+	if err != nil {
+		return nil, err
+	}
+	rem := &c15Remote{pc: pc}
+	pc.OnDataChannel(func(dc *webrtc.DataChannel) {
+		dc.OnOpen(func() { atomic.AddInt32(&rem.opened, 1) })
+		dc.OnClose(func() { atomic.AddInt32(&rem.closed, 1) })
+	})
+	pc.OnConnectionStateChange(func(s webrtc.PeerConnectionState) {
+		switch s {
+		case webrtc.PeerConnectionStateClosed, webrtc.PeerConnectionStateFailed, webrtc.PeerConnectionStateDisconnected:
+			atomic.AddInt32(&rem.closed, 1)
+		}
+	})
+	b.mu.Lock()
+	b.remotes = append(b.remotes, rem)
+	b.mu.Unlock()
+	if err = pc.SetRemoteDescription(*offer); err != nil {
+		return nil, err
+	}
+	done := webrtc.GatheringCompletePromise(pc)
+	ans, err := pc.CreateAnswer(nil)
+	if err != nil {
+		return nil, err
+	}
+	if err = pc.SetLocalDescription(ans); err != nil {
+		return nil, err
+	}
+	<-done
+	s, err := util.SerializeSessionDescription(pc.LocalDescription())
+	if err != nil {
+		return nil, err
+	}
+	return (&messages.ClientPollResponse{Answer: s}).EncodePollResponse()
+}
+
+func c15Until(d time.Duration, f func() bool) bool {
+	deadline := time.Now().Add(d)
+	for !f() {
+		if time.Now().After(deadline) {
+			return false
+		}
+		time.Sleep(10 * time.Millisecond)
+	}
+	return true
+}
+
+// c15Held lists the peers the collection holds, if the collector is not inside Collect right now.
+func c15Held(p *Peers, patience time.Duration) (held []*WebRTCPeer, ok bool) {
+	if !c15Until(patience, p.collectLock.TryLock) {
+		return nil, false
+	}
+	defer p.collectLock.Unlock()
+	for e := p.activePeers.Front(); e != nil; e = e.Next() {
+		held = append(held, e.Value.(*WebRTCPeer))
+	}
+	return held, true
+}
+
+func c15RunCloseBatch(list string) string {
+	specs := wire.List(list)
+	out := make([]string, len(specs))
+	var wg sync.WaitGroup
+	for i, spec := range specs {
+		wg.Add(1)
+		go func(i int, spec string) {
+			defer wg.Done()
+			defer func() {
+				if r := recover(); r != nil {
+					out[i] = "panic"
+				}
+			}()
+			out[i] = c15RunCloseScenario(spec)
+		}(i, spec)
+	}
+	wg.Wait()
+	for _, o := range out {
+		if o == "!badcase" {
+			return o
+		}
+	}
+	return wire.PrintList(out)
+}
+
+func c15RunCloseScenario(spec string) string {
+	f := strings.Split(spec, ".")
+	if len(f) != 4 {
+		return "!badcase"
+	}
+	max, err := strconv.Atoi(f[0])
+	kind, pre, closes := f[1], f[2], f[3]
+	ncalls := map[string]int{"c": 1, "cc": 2, "c2": 2}[closes]
+	okKind := kind == "fail" || kind == "good" || kind == "hold" || kind == "holdgood"
+	okPre := pre == "none" || pre == "sess" || pre == "pconn" || pre == "stream"
+	if err != nil || max < 1 || ncalls == 0 || !okKind || !okPre {
+		return "!badcase"
+	}
+	br := c15NewBroker(kind)
+	defer br.shutdown()
+	transport, err := NewSnowflakeClient(ClientConfig{BrokerURL: br.srv.URL + "/", KeepLocalAddresses: true, Max: max})
+	if err != nil {
+		return "setup=noclient"
+	}
+	conn, err := transport.Dial()
+	if err != nil {
+		return "setup=nodial"
+	}
+	sc := conn.(*SnowflakeConn)
+	// whatever happens below, the collection of this scenario is stopped in the end
+	defer func() {
+		br.letGo()
+		sc.snowflakes.End()
+		sc.pconn.Close()
+		sc.sess.Close()
+	}()
+	if !c15Until(10*time.Second, func() bool { return br.polls() >= 1 }) {
+		return "setup=nopoll"
+	}
+	var held []*WebRTCPeer
+	if kind == "good" {
+		if !c15Until(DataChannelTimeout+5*time.Second, func() bool { return br.remoteOpened() >= 1 }) {
+			return "setup=nopeer"
+		}
+		// Collect has handed the peer over once it lets go of the lock
+		h, ok := c15Held(sc.snowflakes, 3*time.Second)
+		if !ok || len(h) == 0 {
+			return "setup=nopeer"
+		}
+		held = h
+	}
+	switch pre {
+	case "sess":
+		sc.sess.Close()
+	case "pconn":
+		sc.pconn.Close()
+		time.Sleep(1500 * time.Millisecond) // KCP notices on its next (re)transmission
+	case "stream":
+		sc.Stream.Close()
+	}
+	// the application closes the connection
+	type ret struct {
+		at       time.Time
+		inflight int
+	}
+	rets := make(chan ret, 2)
+	call := func() {
+		conn.Close()
+		rets <- ret{time.Now(), br.flying()}
+	}
+	start := time.Now()
+	switch closes {
+	case "c":
+		go call()
+	case "cc":
+		go func() { call(); call() }()
+	case "c2":
+		go call()
+		time.Sleep(100 * time.Millisecond)
+		go call()
+	}
+	if kind == "hold" || kind == "holdgood" {
+		time.AfterFunc(1500*time.Millisecond, br.letGo)
+	}
+	returned, inflight := 0, 0
+	last := start
+	bound := time.After(c15CloseBound)
+collect:
+	for returned < ncalls {
+		select {
+		case r := <-rets:
+			returned++
+			if r.inflight > inflight {
+				inflight = r.inflight
+			}
+			if r.at.After(last) {
+				last = r.at
+			}
+		case <-bound:
+			last = time.Now()
+			break collect
+		}
+	}
+	melt := 0
+	select {
+	case <-sc.snowflakes.Melted():
+		melt = 1
+	default:
+	}
+	if kind == "hold" || kind == "holdgood" {
+		// a Close that did not wait: let the held attempt finish, so that its peer (if any) is seen
+		br.letGo()
+		c15Until(5*time.Second, func() bool { return br.flying() == 0 })
+		if kind == "holdgood" {
+			c15Until(DataChannelTimeout+2*time.Second, func() bool { return br.remoteOpened() >= 1 })
+		}
+	}
+	// peers: those held before, those the collection still lists, and what the proxies see
+	if h, ok := c15Held(sc.snowflakes, time.Second); ok {
+		held = append(held, h...)
+	}
+	open := 0
+	seen := map[*WebRTCPeer]bool{}
+	for _, p := range held {
+		if !seen[p] && !p.Closed() {
+			open++
+		}
+		seen[p] = true
+	}
+	c15Until(3*time.Second, func() bool { return br.remoteOpen() == 0 })
+	if n := br.remoteOpen(); n > open {
+		open = n
+	}
+	// do the rendezvous attempts stop?
+	time.Sleep(time.Until(last.Add(2*ReconnectTimeout + 2*time.Second)))
+	after := br.pollsAfter(last)
+	late := br.pollsAfter(last.Add(c15Straggle))
+	return fmt.Sprintf("ret=%d/%d;inflight=%d;melt=%d;open=%d;after=%d;late=%d", returned, ncalls, inflight, melt, open, after, late)
 }
